@@ -8,14 +8,14 @@ verify)
   src=$2; id=$3
   wt=$(mktemp -d /tmp/seedwt.XXXXXX); rmdir $wt
   git -C /repo worktree add -q --detach $wt HEAD || exit 9
-  cp -r $src $wt/_seed
+  mkdir -p $wt/_seed && cp -r $src $wt/_seed/1     # demos locate the worktree root either by cwd or as ../.. of their own directory
   res=ok
-  if ! git -C $wt apply --check _seed/patch.diff 2>/dev/null; then res="patch-does-not-apply"; fi
+  if ! git -C $wt apply --check _seed/1/patch.diff 2>/dev/null; then res="patch-does-not-apply"; fi
   if [ $res = ok ]; then
-    (cd $wt && /venv/bin/python _seed/demo.py >/dev/null 2>&1); clean=$?
-    git -C $wt apply _seed/patch.diff
+    (cd $wt && /venv/bin/python _seed/1/demo.py >/dev/null 2>&1); clean=$?
+    git -C $wt apply _seed/1/patch.diff
     suite=$(cd $wt && /venv/bin/python -m pytest -q -p no:cacheprovider -x 2>&1 | tail -1)
-    (cd $wt && /venv/bin/python _seed/demo.py >/dev/null 2>&1); broken=$?
+    (cd $wt && /venv/bin/python _seed/1/demo.py >/dev/null 2>&1); broken=$?
     echo "id=$id demo_clean_rc=$clean demo_patched_rc=$broken suite='$suite'"
     if [ $clean -eq 0 ] && [ $broken -ne 0 ] && echo "$suite" | grep -q "1576 passed"; then
       mkdir -p /verif/seeded/$id && cp -r $src/* /verif/seeded/$id/
